@@ -69,6 +69,9 @@ def record(n, rho, r0, drmin, drmax, nswp=None, cache=False, m=None, none_at=Non
         # an objective that is exactly 0.0 at many indices (no exactness claim for such a target)
         F = F.copy()
         F[np.random.default_rng(seed + 5).random(F.shape) < 0.4] = 0.
+        if not np.any(F):
+            # (tiny shapes) an objective that vanishes everywhere is another family: keep one entry
+            F[tuple(0 for _ in F.shape)] = 1.
     Y0 = teneva.rand(n, r0, seed=seed + 1000)
     if y0_eps is not None:
         # an initial tensor that is already close to the target (relative error ~ y0_eps, ranks rho)
@@ -137,7 +140,8 @@ def record(n, rho, r0, drmin, drmax, nswp=None, cache=False, m=None, none_at=Non
         if Yold is not None:
             a, b = dense(Y), dense(Yold)
             ref = np.linalg.norm(a - b) / max(np.linalg.norm(b), 1e-300)
-            if not abs(info['e'] - ref) <= 1e-6 * ref + 3e-7:
+            # (a previous-sweep tensor of norm below 1e-100 makes accuracy() answer with its documented sentinel)
+            if np.linalg.norm(b) > 1e-100 and not abs(info['e'] - ref) <= 1e-6 * ref + 3e-7:
                 state['conv_ok'] = False
         if vld and not abs(info['e_vld'] - relerr(Y, I_vld, y_vld)) <= 1e-9:
             state['evld_ok2'] = False
